@@ -34,6 +34,8 @@ type Program struct {
 	implCache map[*types.Named]types.Type
 	infos     map[string]*types.Info      // package path -> type info (repo packages)
 	localsLock map[string][]localDecl      // function key -> declared locals when the lock was written
+	fieldsLock map[string][]localDecl      // struct type (typePrefix) -> fields when the lock was written
+	fieldAlias map[string]map[string]string // struct type -> recorded field name -> current name (renamed fields)
 	aliasCache map[*ssa.Function]map[string][]string
 	relNames   map[string]bool
 	entryCache map[*ssa.Function]bool
@@ -594,4 +596,147 @@ func (p *Program) allFuncsByRel(rel string) []*ssa.Function {
 		}
 	}
 	return out
+}
+
+// isDeclaredLocal: name is a variable declared in the source of fn.
+func (x *Exec) isDeclaredLocal(fn *ssa.Function, name string) bool {
+	if name == "" {
+		return false
+	}
+	if x.declNames == nil {
+		x.declNames = map[*ssa.Function]map[string]bool{}
+	}
+	m, ok := x.declNames[fn]
+	if !ok {
+		m = map[string]bool{}
+		for _, d := range x.prog.declaredLocals(fn) {
+			m[d.Name] = true
+		}
+		x.declNames[fn] = m
+	}
+	return m[name]
+}
+
+// structFields lists the fields of every named struct type declared in the repository.
+func (p *Program) structFields() map[string][]localDecl {
+	out := map[string][]localDecl{}
+	for _, pk := range p.allPkgs {
+		if !strings.HasPrefix(pk.Path(), repoModule) {
+			continue
+		}
+		for _, name := range pk.Scope().Names() {
+			tn, ok := pk.Scope().Lookup(name).(*types.TypeName)
+			if !ok {
+				continue
+			}
+			st, ok := tn.Type().Underlying().(*types.Struct)
+			if !ok {
+				continue
+			}
+			key := typePrefix(tn.Type())
+			for i := 0; i < st.NumFields(); i++ {
+				out[key] = append(out[key], localDecl{st.Field(i).Name(), types.TypeString(st.Field(i).Type(), nil)})
+			}
+		}
+	}
+	return out
+}
+
+func (p *Program) loadFieldsLock(path string) {
+	p.fieldsLock = map[string][]localDecl{}
+	p.fieldAlias = map[string]map[string]string{}
+	data, err := os.ReadFile(path)
+	if err != nil {
+		return
+	}
+	for _, line := range strings.Split(string(data), "\n") {
+		fs := strings.Split(line, "\t")
+		if len(fs) == 3 {
+			p.fieldsLock[fs[0]] = append(p.fieldsLock[fs[0]], localDecl{fs[1], fs[2]})
+		}
+	}
+	cur := p.structFields()
+	for key, old := range p.fieldsLock {
+		now := cur[key]
+		if len(now) == 0 {
+			continue
+		}
+		present := map[string]bool{}
+		for _, f := range now {
+			present[f.Name] = true
+		}
+		// align the recorded and the current field lists (same type required, equal names preferred)
+		n, k := len(old), len(now)
+		score := make([][]int, n+1)
+		for i := range score {
+			score[i] = make([]int, k+1)
+		}
+		w := func(i, j int) int {
+			if old[i].Type != now[j].Type {
+				return 0
+			}
+			if old[i].Name == now[j].Name {
+				return 3
+			}
+			return 1
+		}
+		for i := n - 1; i >= 0; i-- {
+			for j := k - 1; j >= 0; j-- {
+				best := score[i+1][j]
+				if score[i][j+1] > best {
+					best = score[i][j+1]
+				}
+				if ww := w(i, j); ww > 0 && score[i+1][j+1]+ww > best {
+					best = score[i+1][j+1] + ww
+				}
+				score[i][j] = best
+			}
+		}
+		for i, j := 0, 0; i < n && j < k; {
+			ww := w(i, j)
+			switch {
+			case ww > 0 && score[i][j] == score[i+1][j+1]+ww:
+				if old[i].Name != now[j].Name && !present[old[i].Name] {
+					if p.fieldAlias[key] == nil {
+						p.fieldAlias[key] = map[string]string{}
+					}
+					p.fieldAlias[key][old[i].Name] = now[j].Name
+				}
+				i++
+				j++
+			case score[i][j] == score[i+1][j]:
+				i++
+			default:
+				j++
+			}
+		}
+	}
+}
+
+// fieldName maps a field name used in a contract to the current name of that field of struct type t
+// (fields that were merely renamed since the contracts were written).
+func (p *Program) fieldName(t types.Type, name string) string {
+	if m := p.fieldAlias[typePrefix(t)]; m != nil {
+		if n, ok := m[name]; ok {
+			return n
+		}
+	}
+	return name
+}
+
+// fixRegion renames the field component of a region literal such as "protocol.Tunnel.pending".
+func (p *Program) fixRegion(r string) string {
+	for key, m := range p.fieldAlias {
+		if strings.HasPrefix(r, key+".") {
+			rest := r[len(key)+1:]
+			field, tail := rest, ""
+			if i := strings.IndexAny(rest, ".#"); i >= 0 {
+				field, tail = rest[:i], rest[i:]
+			}
+			if n, ok := m[field]; ok {
+				return key + "." + n + tail
+			}
+		}
+	}
+	return r
 }
